@@ -506,3 +506,38 @@ Lemma ac_state_0 v : ac_state 0 v = v.
 Proof.
   unfold ac_state, pt_ac. rewrite Z.shiftl_0_r. destruct (v <? 0); rewrite Z.shiftr_0_r; lia.
 Qed.
+
+(* ============================================================ AC refine *)
+(* History relation and expected result of an AC refinement scan at Al: before the scan
+   the band holds the magnitude-truncation at Al+1, afterwards at Al. *)
+Definition in_band (Ss Se : nat) (j : nat) : bool := ((Ss <=? j) && (j <=? Se))%nat.
+Definition acr_hist (Ss Se : nat) (Al : Z) (b blk : list Z) : Prop :=
+  length b = 64%nat /\ length blk = 64%nat /\
+  forall j, in_band Ss Se j = true -> nth (order j) blk 0 = ac_state (Al + 1) (nth (order j) b 0).
+Definition acr_expected (Ss Se : nat) (Al : Z) (b blk : list Z) : list Z :=
+  map (fun i => if in_band Ss Se (nth i inv_order 0%nat) then ac_state Al (nth i b 0) else nth i blk 0) (seq 0 64).
+
+(* one restart interval of AC refinement (incl. EOBRUN with buffered correction bits, ZRL
+   folding, the flush at 0x7FFF / MAX_CORR_BITS) *)
+Definition acr_segment_roundtrip (ac : codec) (Ss Se : nat) (Al : Z) : Prop :=
+  forall bl cur bits rest, length cur = length bl ->
+    Forall (fun bc => acr_hist Ss Se Al (fst bc) (snd bc)) (combine bl cur) ->
+    enc_acr_blocks ac Ss Se Al bl 0 [] = Some bits ->
+    dec_acr_blocks ac Ss Se Al cur 0 (bits ++ rest) =
+      Some (map (fun bc => acr_expected Ss Se Al (fst bc) (snd bc)) (combine bl cur), rest).
+
+(* the restart/byte layer on top of it holds for every restart interval *)
+Theorem acr_scan_roundtrip_from_segment ac Ss Se Al Ri bl cur bytes :
+  acr_segment_roundtrip ac Ss Se Al ->
+  length cur = length bl ->
+  Forall (fun bc => acr_hist Ss Se Al (fst bc) (snd bc)) (combine bl cur) ->
+  acr_enc_scan ac Ss Se Al Ri bl = Some bytes ->
+  acr_dec_scan ac Ss Se Al Ri cur bytes =
+    Some (map (fun bc => acr_expected Ss Se Al (fst bc) (snd bc)) (combine bl cur)).
+Proof.
+  intros Hseg Hl HF He. unfold acr_dec_scan, acr_enc_scan in *.
+  apply (scan_roundtrip _ _ _ (fun seg => enc_acr_blocks ac Ss Se Al seg 0 []) _
+           (fun b c => acr_hist Ss Se Al b c) (fun b c => acr_expected Ss Se Al b c));
+    [|split; assumption|exact He].
+  intros ms0 ds bits rest [Hl0 HF0] Hb. now apply Hseg.
+Qed.
